@@ -24,12 +24,16 @@ structure Graph where
   taskDep : Name → List Name
   setup : Name → List Name
   subOf : Name → Option Name
+  /-- `calc_dep`: tasks whose result provides dependencies.  A run processes them before the task (like a
+      `task_dep`); `tasks_and_deps_iter` does *not* follow them ("FIXME this does not take calc_dep into account"). -/
+  calcDep : Name → List Name := fun _ => []
 
 /-- `task.task_dep + task.setup_tasks` -/
 def Graph.succs (g : Graph) (t : Name) : List Name := g.taskDep t ++ g.setup t
 
 /-- every declared edge ends in a task of the task set (enforced by the loader, C18) -/
-def Graph.WF (g : Graph) : Bool := g.names.all fun t => (g.succs t).all fun d => decide (d ∈ g.names)
+def Graph.WF (g : Graph) : Bool :=
+  g.names.all fun t => (g.succs t ++ g.calcDep t).all fun d => decide (d ∈ g.names)
 
 /-- `subtasks_iter(tasks, task)` -/
 def subtasks (g : Graph) (t : Name) : List Name := (g.taskDep t).filter fun d => g.subOf d == some t
@@ -212,8 +216,9 @@ def Outcome.isIgnored : Outcome → Bool
 def implicitDeps (g : Graph) (defs : Name → TaskDef) (t : Name) : List Name :=
   g.names.filter fun u => (defs u).targets.any fun p => decide (p ∈ (defs t).deps)
 
-/-- `task.task_dep` during a run: declared + implicit -/
-def hardDeps (g : Graph) (defs : Name → TaskDef) (t : Name) : List Name := g.taskDep t ++ implicitDeps g defs t
+/-- the tasks a run finishes before it hands `t` over: `task.task_dep` (declared + implicit) and `calc_dep` -/
+def hardDeps (g : Graph) (defs : Name → TaskDef) (t : Name) : List Name :=
+  g.taskDep t ++ g.calcDep t ++ implicitDeps g defs t
 
 structure RunSt where
   s : St
